@@ -31,6 +31,7 @@ RULE = (
     "fault, response, EOF and the wrong ack type. The script tree is enumerated exhaustively to depth 3 (quick) / 5 (thorough), expanding only "
     "prefixes after which the reference machine continues. distinct = (provider, server script, api); non-trivial = at least two legs or a "
     "rejection / fault / wrong PDU / EOF in the script"
+    " Also: rejection flavours (fault packet flags / statuses, bind_nak reasons); 5..40 legs; two or three connections alive at once whose servers advertise header signing differently."
 )
 ASSUMPTIONS = [
     "ScriptedContext stands in for the authentication provider; real NTLM and SPNEGO handshakes are run as the realistic members",
